@@ -212,7 +212,26 @@ func (c19) Gen(seed uint64, tier string) *Scenario {
 		sc.Files = append(sc.Files, FileSpec{Name: name, B64: base64.StdEncoding.EncodeToString(data)})
 	}
 	sc.Files = append(sc.Files, FileSpec{Name: "other.csv", Content: "k,v\n1,one\n2,two\n"})
-	switch r.Intn(11) {
+	sc.Files = append(sc.Files, FileSpec{Name: "none.csv", Content: "k,v\n"})
+	switch r.Intn(14) {
+	case 11, 12:
+		// joins of every kind with the loaded table (possibly empty or torn) and with a table that
+		// has no records on either side
+		dir := r.PickS("FULL OUTER", "FULL", "LEFT", "RIGHT", "INNER", "CROSS", "NATURAL", "FULL OUTER")
+		on := " ON s.c1 = o.v"
+		if dir == "CROSS" || dir == "NATURAL" {
+			on = ""
+		}
+		m.Stmts = []string{fmt.Sprintf("SELECT * FROM %s s %s JOIN other o%s;", src, dir, on), fmt.Sprintf("SELECT * FROM other o %s JOIN %s s%s;", dir, src, on),
+			fmt.Sprintf("SELECT * FROM none n %s JOIN other o%s;", dir, strings.ReplaceAll(on, "s.c1", "n.v")), fmt.Sprintf("SELECT * FROM other o %s JOIN none n%s;", dir, strings.ReplaceAll(on, "s.c1", "n.v")),
+			fmt.Sprintf("SELECT * FROM (SELECT * FROM other WHERE FALSE) e %s JOIN %s s%s;", dir, src, strings.ReplaceAll(strings.ReplaceAll(on, "o.v", "e.v"), "s.c1", "s.c1")),
+			fmt.Sprintf("SELECT * FROM none a %s JOIN none b%s;", dir, strings.ReplaceAll(strings.ReplaceAll(on, "s.c1", "a.k"), "o.v", "b.k"))}
+	case 13:
+		// every clause over a table without records
+		m.Stmts = []string{"SELECT k, COUNT(*), MAX(v) FROM none GROUP BY k;", "SELECT COUNT(*), SUM(k), LISTAGG(v, ',') FROM none;", "SELECT k, RANK() OVER (ORDER BY k), SUM(k) OVER (PARTITION BY v) FROM none;",
+			"SELECT DISTINCT v FROM none ORDER BY v LIMIT 1 OFFSET 1;", "SELECT k FROM none UNION SELECT k FROM other EXCEPT SELECT k FROM none INTERSECT SELECT k FROM other;",
+			fmt.Sprintf("SELECT * FROM %s WHERE c1 IN (SELECT v FROM none) OR EXISTS (SELECT 1 FROM none);", src), "UPDATE none SET v = 1; DELETE FROM none; INSERT INTO none SELECT k, v FROM none;",
+			fmt.Sprintf("REPLACE INTO none (k, v) USING (k) SELECT c1, c2 FROM %s;", src), "SELECT * FROM none;", "ROLLBACK;"}
 	case 10:
 		// an existing table "created" again: the statement loads it to compare the columns
 		m.Stmts = []string{"CREATE TABLE IF NOT EXISTS other (k, v);", fmt.Sprintf("SELECT COUNT(*) FROM %s;", src), "CREATE TABLE IF NOT EXISTS `other.csv` (k, v);", "COMMIT;"}
